@@ -98,7 +98,7 @@ func runE2E(c *rig.Ctx, cs Case) (out e2eOut, f *failure) {
 			go func() {
 				defer wg.Done()
 				for time.Now().Before(end) {
-					one()
+					rig.Recover(func() { one() })
 					atomic.AddInt64(&sent, 1)
 					time.Sleep(2 * time.Millisecond) // keep the number of short-lived connections moderate
 				}
@@ -160,8 +160,13 @@ func runE2E(c *rig.Ctx, cs Case) (out e2eOut, f *failure) {
 
 func e2eCases(c *rig.Ctx) []Case {
 	cases := []Case{
+		{Kind: "e2eshape", QPS: 1, Burst: 2, Conc: 6},
 		{Kind: "e2e", QPS: 5, Burst: 8, Conc: 6, DurMs: 700},
 		{Kind: "e2e", QPS: 100, Burst: 100, Conc: 16, DurMs: 500},
+	}
+	for i := 0; i < c.Budget(0, 4); i++ {
+		q := rig.Pick(c.Rng, []int{0, 1, 2, 3})
+		cases = append(cases, Case{Kind: "e2eshape", QPS: q, Burst: 1 + c.Rng.Intn(4), Conc: 5 + c.Rng.Intn(5)})
 	}
 	n := c.Budget(0, 10)
 	for i := 0; i < n; i++ {
